@@ -171,6 +171,9 @@ func buildItems(thorough bool) []*item {
 		// belong to the base (every part then reaches every layer state that
 		// longer batches reach); for plain stores they are ordinary batches.
 		graph := func(name string, ms []mut, batches []op, uni []int, parts, states int) {
+			if buf && k.maxBuf < hugeBuf {
+				states *= 2 // the byte counter doubles the layer states
+			}
 			b := cat(singles(ms), ctl)
 			if buf {
 				b = cat(singles(ms), batchesOf(ms, 1), ctl)
@@ -193,7 +196,8 @@ func buildItems(thorough bool) []*item {
 			}
 		case k.class == clF:
 			if thorough {
-				graph("graph4", m4, cat(batchesOf(m4, 2), batchesOf(m4, 3)), keys4, 32, 81)
+				// every batch of <=2 over the 4 keys, every batch of 3 over 3 keys
+				graph("graph4", m4, cat(batchesOf(m4, 2), batchesOf(m3, 3)), keys4, 16, 81)
 			} else {
 				// 81 states with single mutations and one-mutation batches;
 				// 27 states with every batch of <=2 and every batch of 3 over one key
@@ -204,7 +208,7 @@ func buildItems(thorough bool) []*item {
 			// state = reference x both layers: up to 9 layer states per key
 			if thorough {
 				graph("graph3", m3, cat(batchesOf(m3, 2), batchesOf(m3, 3)), keys3, 8, 729)
-				graph("graph4", m4, cat(batchesOf(m4, 2), batchesOf(m2, 3)), keys4, 8, 6561)
+				graph("graph4", m4, cat(batchesOf(m4, 2), batchesOf(m1, 3)), keys4, 4, 6561)
 			} else {
 				graph("graph3", m3, cat(batchesOf(m3, 2), batchesOf(m1, 3)), keys3, 2, 729)
 			}
@@ -224,7 +228,10 @@ func buildItems(thorough bool) []*item {
 		if thorough {
 			treeOps = append(treeOps, bt(dl(kA), st(kA, v2)))
 			if k.class != clF {
-				treeOps = append(treeOps, bt(st(kA, v1), dl(kA)), bt(st(kA, v2), st(kA, v1), dl(kAPipe)))
+				treeOps = append(treeOps, bt(st(kA, v2), st(kA, v1), dl(kAPipe)))
+			}
+			if k.class == clM || k.class == clBF {
+				treeOps = append(treeOps, bt(st(kA, v1), dl(kA)))
 			}
 		}
 		treeOps = append(treeOps, ctl...)
